@@ -62,12 +62,12 @@ def run(ctx):
                 "fields, unions with payloads of scalars / tuples / records / slices / other unions, functions, inner functions with "
                 "capture, lambdas, partial application bound to locals and as pipeline stages, pipes, if / elif / else, if without else, "
                 "union and string match with bind / ignore / default arms, tuples, destructuring, slices and library pipelines, "
-                "interpolation, = / <>; Probe on sub-expressions and Mark in blocks); quick 400, thorough 4000 programs; plus the systematic "
+                "interpolation, = / <>; Probe on sub-expressions and Mark in blocks); quick 400, thorough 20000 programs; plus the systematic "
                 "kernels (all boolean trees of depth 2 over && || not with probed atoms, operand / argument / element / field order, "
                 "partial application at every arity, if / elif / else chains under every truth assignment, union match over every "
                 "constructor x arm order x default x payload form for unions of 1-3 cases, string match, closures). distinct = "
                 "distinct programs (hash of the abstract syntax); non-trivial = the specified trace has >= 2 events")
-    n = 4000 if ctx.tier == "thorough" else 400
+    n = 20000 if ctx.tier == "thorough" else 400
     rng = random.Random(ctx.seed * 7919 + 1)
     progs = [fogen.generate(rng, i + 1, size=rng.randint(1, 4)) for i in range(n)]
     kern = fogen.kernels(n + 1)
